@@ -63,6 +63,11 @@ def project(node, views=False):
         out["v"] = atom_of_py(str(node))
         if k == "eval" and str(node).isidentifier():
             out["ref"] = [skey(str(node))]      # convention (AyEval.tla): code that is one bare name refers to that top-level key
+        if k == "fstr":
+            import re
+            m = re.fullmatch(r"f(['\"])\{([A-Za-z_]\w*)\}\1", str(node))
+            if m:
+                out["ref"] = [skey(m.group(2))]     # ... and an f-string whose body is one replacement field `{name}`
     return out
 
 
